@@ -160,7 +160,7 @@ class Gen:
         r = self.r
         vs = self.vars_of(ctx, T(ty))
         if d <= 0:
-            if vs and r.random() < 0.7:
+            if vs and r.random() < 0.8:
                 return {"k": "var", "n": r.choice(vs)[0]}
             return self.lit(ty)
         c = r.random()
@@ -461,7 +461,27 @@ class Gen:
         rt = {"k": "tuple", "ts": rts}
         params = [f"m{i}" for i in range(nparams)]
         ctx = Ctx(rt, [(n, t, False) for n, t in zip(params, ptys)], helpers)
+        # locals of many types derived from the parameters, so that leaves depend on the inputs
+        # (otherwise most expressions are literal-only and get constant folded)
+        pre = []
+        for ty in r.sample(INT_TYPES, len(INT_TYPES)):
+            if any(v[1]["k"] == "int" and v[1]["ty"] == ty for v in ctx.vars):
+                continue
+            srcs = [(n, t["ty"]) for n, t in zip(params, ptys) if self.into_ok(t["ty"], ty)]
+            if srcs and r.random() < 0.8:
+                n0, t0 = r.choice(srcs)
+                n = self.fresh(ctx)
+                pre.append({"k": "let", "n": n, "mut": False, "ty": T(ty),
+                            "e": {"k": "conv", "kind": "into", "frm": t0, "to": ty, "e": {"k": "var", "n": n0}}})
+                ctx.vars.append((n, T(ty), False))
+        if r.random() < 0.6:
+            n = self.fresh(ctx)
+            pre.append({"k": "let", "n": n, "mut": False, "ty": BOOL,
+                        "e": {"k": "cmp", "op": "eq" if ptys[0]["ty"] == "felt" else r.choice(["lt", "gt", "eq"]), "l": {"k": "var", "n": params[0]},
+                              "r": self.lit(ptys[0]["ty"])}})
+            ctx.vars.append((n, BOOL, False))
         body = self.block(ctx, rt, depth)
+        body["ss"] = pre + body["ss"]
         main = f"p{p}_main"
         self.fns[main] = {"params": params, "ptys": ptys, "ret": rt, "body": body, "inline": ""}
         return main
